@@ -28,7 +28,22 @@ def main():
     if tier not in ("quick", "thorough"):
         raise SystemExit("tier must be quick or thorough")
     res = vlib.Result(prop, tier, mod.LEVEL)
-    confirm = mod.run(res, tier)
+    confirm = None
+    try:
+        confirm = mod.run(res, tier)
+    except SystemExit:
+        raise
+    except Exception as ex:      # noqa: BLE001
+        # a check that cannot digest what the program under test produced has not shown that the property holds: reported as a violation with the
+        # traceback (this never happens on the unchanged tree; on a changed tree it means the output deviates in a way the oracle did not foresee,
+        # e.g. a results file without the datasets or attributes every run writes)
+        import traceback
+        tb = traceback.format_exc()
+        res.exhaustive = False
+        res.violate("%s/check-could-not-judge/%s" % (prop, type(ex).__name__), "the check itself", tb[-1500:])
+        confirm = None
+        if res.evaluations == 0:
+            res.eval("(check aborted)", 0, trivial=True)
     sys.exit(vlib.finish(res, confirm))
 
 
